@@ -46,6 +46,9 @@ def steps_of(ix, f) -> dict[str, int]:
 
 def run(chk: Check) -> None:
     run_import_errors(chk, get_index())
+    run_def_or_infer(chk, get_index())
+    run_phase_handover(chk, get_index())
+    run_dedupe_state(chk, get_index())
     ix = get_index()
 
     # ---------------- R07.1
@@ -293,3 +296,96 @@ def run_import_errors(chk: Check, ix) -> None:
             r5.violation("load_states replays import_errors[id] for every module id of the request, after set_file", ls.loc(), "the replay does not run over all module ids of the request")
     else:
         r5.violation("load_states replays import_errors[id] for every module id of the request, after set_file", ls.loc(), "the worker no longer replays the coordinator's import errors into its Errors object")
+
+
+def run_def_or_infer(chk: Check, ix) -> None:
+    """R07.6: a function that (through any nested function) defines or infers a variable is flagged on every enclosing level."""
+    r6 = chk.rule("R07.6", "every site in the semantic analyser that marks `def_or_infer_vars` does so for all functions of the current scope stack (`for f in self.scope.functions`), so that the *top-level* function or method, the unit the interface phase selects, is flagged when a nested function defines an attribute or infers a variable", floor=3)
+    m = ix.module("mypy.semanal")
+    par = m.parents()
+    n = 0
+    for q, f in sorted(ix.functions.items()):
+        if f.module is not m or f.parent is not None:
+            continue
+        for a in ast.walk(f.node):
+            if not (isinstance(a, ast.Assign) and isinstance(a.targets[0], ast.Attribute) and a.targets[0].attr == "def_or_infer_vars" and isinstance(a.value, ast.Constant) and a.value.value is True):
+                continue
+            n += 1
+            tgt = a.targets[0].value
+            p_ = par.get(a)
+            in_loop = None
+            while p_ is not None and p_ is not f.node:
+                if isinstance(p_, ast.For) and norm(p_.target) == norm(tgt) and norm(p_.iter) == "self.scope.functions":
+                    in_loop = p_
+                    break
+                p_ = par.get(p_)
+            key = f"{f.name}: def_or_infer_vars set on every function of the scope stack"
+            k2 = key if n == 1 else f"{key} #{n}"
+            if in_loop is not None or norm(tgt) in ("self.scope.functions[0]",):
+                r6.ok(k2, f.loc(a))
+            else:
+                r6.violation(k2, f.loc(a), f"only `{norm(tgt)}` is flagged: when the definition sits in a nested function the enclosing top-level function/method is not processed in the interface phase of a parallel build, the variable's type is missing from the cached interface and dependants on other workers report `Cannot determine type`")
+    if n < 3:
+        raise AnalysisError(f"only {n} sites setting def_or_infer_vars found in semanal.py")
+
+
+def run_phase_handover(chk: Check, ix) -> None:
+    """R07.7: every module of an SCC handed to a worker gets both phases."""
+    r7 = chk.rule("R07.7", "process_stale_scc_interface returns an entry for every module of the stale list on every path (also when the cache could not be written), and the worker runs the implementation phase for exactly the modules of that result: otherwise function bodies of the missing module are never checked and its errors never reported", floor=2)
+    pi = ix.func("mypy.build.process_stale_scc_interface")
+    rets = [n for n in ast.walk(pi.node) if isinstance(n, ast.Return) and n.value is not None]
+    if len(rets) != 1 or not isinstance(rets[0].value, ast.Name):
+        raise AnalysisError("process_stale_scc_interface: single `return <result list>` not found")
+    res = rets[0].value.id
+    loops = [l for l in ast.walk(pi.node) if isinstance(l, ast.For) and any(isinstance(c, ast.Call) and isinstance(c.func, ast.Attribute) and c.func.attr == "append" and norm(c.func.value) == res for c in ast.walk(l))]
+    if len(loops) != 1:
+        raise AnalysisError("process_stale_scc_interface: the loop filling the result was not found")
+    lp = loops[0]
+    g = CFG(pi.node)
+    heads = [n for n in g.nodes if n.stmt is lp and n.kind in ("for-iter", "for-head")]
+    head = [n for n in heads if any(lab in ("true", "body", "iter") for m, lab in n.succ)] or heads
+    apps = [n for n in g.nodes if any(isinstance(c.func, ast.Attribute) and c.func.attr == "append" and norm(c.func.value) == res for c in n.calls())]
+    body_first = [n for n in g.nodes if n.stmt is lp.body[0]]
+    over = norm(lp.iter)
+    key = f"process_stale_scc_interface: every iteration of `for {norm(lp.target)} in {over}` appends to the result"
+    ok = bool(body_first and apps and heads) and all(g.must_pass(body_first[0], [h], apps, labels_excluded=("exc",)) for h in heads)
+    if ok and over == "stale":
+        r7.ok(key, pi.loc(lp))
+    else:
+        w = g.witness(body_first[0], heads, apps, labels_excluded=("exc",)) if body_first and heads else None
+        r7.violation(key, pi.loc(lp), "a module can be left out of the interface result (for example when its cache was not written: no path as for `mypy -c`, or a failed write); the worker then never runs the implementation phase for it, so errors in its function bodies are not reported and the run says Success", witness=g.fmt_path(w or [], pi.module.relpath))
+    ws = ix.func("mypy.build_worker.worker.serve_sccs") if "mypy.build_worker.worker.serve_sccs" in ix.functions else None
+    if ws is None:
+        cands = [f for q, f in ix.functions.items() if f.module.name == "mypy.build_worker.worker" and f.parent is None and any(isinstance(c, ast.Call) and call_name(c) == "process_stale_scc_implementation" for c in ast.walk(f.node))]
+        ws = cands[0] if cands else None
+    if ws is None:
+        raise AnalysisError("worker: caller of process_stale_scc_implementation not found")
+    from ..pattern import has
+    if has(ws.node, "for $id, $r, $mf in $results:\n    $stale.append($id)\n    $mr[$id] = $r\n    $mfs.append($mf)", "for $i2, $m2 in zip($stale, $mfs):\n    $res |= process_stale_scc_implementation(graph, [$i2], manager, [$m2])") or has(ws.node, "for $id, $r, $mf in $results:\n    $stale.append($id)\n    $mr[$id] = $r\n    $mfs.append($mf)"):
+        r7.ok("worker: the implementation phase runs over every (id, meta file) of the interface result", ws.loc())
+    else:
+        r7.violation("worker: the implementation phase runs over every (id, meta file) of the interface result", ws.loc(), "the module list of the implementation phase is no longer taken one-to-one from the interface result")
+
+
+def run_dedupe_state(chk: Check, ix) -> None:
+    """R07.8: de-duplication state that decides whether a diagnostic is printed is not process-local in effect."""
+    r8 = chk.rule("R07.8", "a set that Errors.add_error_info uses to print a message only once per build (tested with `in`, then added to) is per Errors object, hence per worker process; the coordinator must reconcile it when it merges worker output, otherwise a parallel build prints the message once per worker that meets it", floor=1)
+    aei = ix.func("mypy.errors.Errors.add_error_info")
+    tested, added = {}, set()
+    for n in ast.walk(aei.node):
+        if isinstance(n, ast.Compare) and len(n.ops) == 1 and isinstance(n.ops[0], ast.In) and isinstance(n.comparators[0], ast.Attribute) and norm(n.comparators[0].value) == "self":
+            tested.setdefault(n.comparators[0].attr, n)
+        if isinstance(n, ast.Call) and isinstance(n.func, ast.Attribute) and n.func.attr == "add" and isinstance(n.func.value, ast.Attribute) and norm(n.func.value.value) == "self":
+            added.add(n.func.value.attr)
+    sets = sorted(set(tested) & added)
+    if not sets:
+        raise AnalysisError("add_error_info: no once-per-build de-duplication set found")
+    build = ix.module("mypy.build")
+    worker = ix.module("mypy.build_worker.worker")
+    for a in sets:
+        mentioned = any(isinstance(x, ast.Attribute) and x.attr == a for m in (build, worker) for x in ast.walk(m.tree))
+        key = f"Errors.{a}: reconciled between workers and coordinator"
+        if mentioned:
+            r8.ok(key, aei.loc(tested[a]))
+        else:
+            r8.violation(key, aei.loc(tested[a]), f"`{a}` is consulted and updated per process only; neither the coordinator nor the worker protocol mentions it, so every worker prints its own copy of a once-per-build message (sequential: once)")
